@@ -648,6 +648,138 @@ def translate_create() -> str:
             'Definition create_detaches_config : bool := %s.' % ('true' if detaches else 'false'))
 
 
+
+# ---------------------------------------------------------------------------------------------
+# shape pins: the configuration code the hand models of Gen/Config.v stand for, statement by statement
+# ---------------------------------------------------------------------------------------------
+
+PIN_FILE = os.path.join(os.path.dirname(os.path.abspath(__file__)), 'c13_pins.json')
+PINNED = [
+    ('src/nunavut/_utilities.py', None, 'no_default_value'),
+    ('src/nunavut/lang/_config.py', 'LanguageConfig', '__init__'),
+    ('src/nunavut/lang/_config.py', 'LanguageConfig', 'update'),
+    ('src/nunavut/lang/_config.py', 'LanguageConfig', 'update_section'),
+    ('src/nunavut/lang/_config.py', 'LanguageConfig', 'sections'),
+    ('src/nunavut/lang/_config.py', 'LanguageConfig', 'update_from_yaml_string'),
+    ('src/nunavut/lang/_config.py', 'LanguageConfig', 'update_from_yaml_file'),
+    ('src/nunavut/lang/_config.py', 'LanguageConfig', 'set'),
+    ('src/nunavut/lang/_config.py', 'LanguageConfig', 'add_section'),
+    ('src/nunavut/lang/_config.py', 'LanguageConfig', '_get_config_value_raw'),
+    ('src/nunavut/lang/_config.py', 'LanguageConfig', 'get_config_value'),
+    ('src/nunavut/lang/_config.py', 'LanguageConfig', 'get_config_value_as_bool'),
+    ('src/nunavut/lang/_config.py', 'LanguageConfig', 'get_config_value_as_dict'),
+    ('src/nunavut/lang/_config.py', 'LanguageConfig', 'get_config_value_as_list'),
+    ('src/nunavut/lang/_language.py', 'Language', '__init__'),
+    ('src/nunavut/lang/_language.py', 'Language', '_validate_language_options'),
+    ('src/nunavut/lang/_language.py', 'Language', 'get_option'),
+    ('src/nunavut/lang/_language.py', 'Language', 'get_options'),
+    ('src/nunavut/lang/_language.py', 'Language', 'get_config_value'),
+    ('src/nunavut/lang/_language.py', 'Language', 'get_config_value_as_bool'),
+    ('src/nunavut/lang/_language.py', 'Language', 'get_config_value_as_dict'),
+    ('src/nunavut/lang/_language.py', 'Language', 'get_config_value_as_list'),
+    ('src/nunavut/lang/_language.py', 'LanguageClassLoader', '_load_config'),
+    ('src/nunavut/lang/_language.py', 'LanguageClassLoader', '__init__'),
+    ('src/nunavut/lang/_language.py', 'LanguageClassLoader', 'config'),
+    ('src/nunavut/lang/_language.py', 'LanguageClassLoader', 'new_language'),
+    ('src/nunavut/lang/py/__init__.py', 'Language', '_validate_language_options'),
+    ('src/nunavut/lang/__init__.py', 'LanguageContext', '__init__'),
+    ('src/nunavut/lang/__init__.py', 'LanguageContext', 'get_target_language'),
+    ('src/nunavut/lang/__init__.py', 'LanguageContext', 'get_supported_languages'),
+    ('src/nunavut/lang/__init__.py', 'LanguageContext', 'config'),
+    ('src/nunavut/lang/__init__.py', 'LanguageContextBuilder', '__init__'),
+    ('src/nunavut/lang/__init__.py', 'LanguageContextBuilder', 'config'),
+    ('src/nunavut/lang/__init__.py', 'LanguageContextBuilder', 'get_supported_language_names'),
+    ('src/nunavut/lang/__init__.py', 'LanguageContextBuilder', 'set_target_language_extension'),
+    ('src/nunavut/lang/__init__.py', 'LanguageContextBuilder', 'set_target_language'),
+    ('src/nunavut/lang/__init__.py', 'LanguageContextBuilder', 'set_additional_config_files'),
+    ('src/nunavut/lang/__init__.py', 'LanguageContextBuilder', '_new_language_w_experimental_handling'),
+    ('src/nunavut/lang/__init__.py', 'LanguageContextBuilder', '_new_language_map'),
+    ('src/nunavut/lang/__init__.py', 'LanguageContextBuilder', '_resolve_target_language'),
+]
+
+
+def _shape(fn: ast.FunctionDef) -> dict:
+    return {'decorators': [ast.unparse(d) for d in fn.decorator_list],
+            'params': [a.arg for a in fn.args.posonlyargs + fn.args.args + fn.args.kwonlyargs]
+                      + (['*' + fn.args.vararg.arg] if fn.args.vararg else []) + (['**' + fn.args.kwarg.arg] if fn.args.kwarg else []),
+            'defaults': [ast.unparse(d) for d in fn.args.defaults + [x for x in fn.args.kw_defaults if x is not None]],
+            'body': _stmts(fn)}
+
+
+def current_shapes() -> dict:
+    out, trees = {}, {}
+    for rel, cls, name in PINNED:
+        if rel not in trees:
+            trees[rel] = gen.parse_repo(rel)
+        out['%s::%s%s' % (rel, cls + '.' if cls else '', name)] = _shape(find_function(trees[rel], cls, name))
+    return out
+
+
+def check_pins() -> None:
+    import json
+    with open(PIN_FILE, encoding='utf-8') as f:
+        want = json.load(f)
+    got = current_shapes()
+    for k in want:
+        if got.get(k) != want[k]:
+            part = next((p for p in ('decorators', 'params', 'defaults', 'body') if got.get(k, {}).get(p) != want[k].get(p)), '?')
+            raise Unsupported('%s no longer has the shape the model of Gen/Config.v stands for (%s differ)' % (k, part))
+
+
+def scan_mutable_defaults() -> None:
+    """Class-level / module-level (or otherwise shared) objects must not be handed out as the default of a configuration getter, and no
+    function of the configuration code may have a mutable display as a parameter default: such an object would be shared by every
+    language and context of the process, and the validators write into the option maps they are given."""
+    import glob
+    getters = {'get_config_value_as_dict', 'get_config_value_as_list', 'get_config_value', 'get_config_value_as_bool',
+               '_get_config_value_raw', 'get_option'}
+
+    def fresh_ok(e, params) -> bool:
+        if isinstance(e, ast.Constant):
+            return True
+        if isinstance(e, (ast.Dict, ast.List, ast.Set, ast.Tuple)):
+            parts = list(getattr(e, 'elts', [])) + list(getattr(e, 'values', [])) + [k for k in getattr(e, 'keys', []) if k is not None]
+            return all(fresh_ok(x, params) for x in parts)
+        if isinstance(e, ast.Call) and isinstance(e.func, ast.Name) and e.func.id in ('dict', 'list', 'set') and not e.args and not e.keywords:
+            return True
+        if isinstance(e, ast.Name) and e.id in params:
+            return True
+        if isinstance(e, ast.Attribute) and ast.unparse(e) == 'self._UNSET':
+            return True
+        if isinstance(e, ast.IfExp):
+            return fresh_ok(e.body, params) and fresh_ok(e.orelse, params)
+        return False
+
+    hits = []
+    root = os.path.join(gen.REPO, 'src', 'nunavut')
+    files = sorted(set(glob.glob(os.path.join(root, 'lang', '*.py')) + glob.glob(os.path.join(root, 'lang', '*', '__init__.py'))
+                       + [os.path.join(root, '_utilities.py')]))
+    for f in files:
+        with open(f, encoding='utf-8') as fh:
+            tree = ast.parse(fh.read())
+        rel = os.path.relpath(f, gen.REPO)
+        for fn in ast.walk(tree):
+            if isinstance(fn, (ast.FunctionDef, ast.Lambda)):
+                for d in list(fn.args.defaults) + [x for x in fn.args.kw_defaults if x is not None]:
+                    if isinstance(d, (ast.Dict, ast.List, ast.Set)) or (isinstance(d, ast.Call) and isinstance(d.func, ast.Name)
+                                                                         and d.func.id in ('dict', 'list', 'set')):
+                        hits.append('%s:%d mutable parameter default %s' % (rel, d.lineno, ast.unparse(d)))
+            if isinstance(fn, ast.FunctionDef):
+                params = {x.arg for x in fn.args.args + fn.args.kwonlyargs}
+                for c in ast.walk(fn):
+                    if isinstance(c, ast.Call) and isinstance(c.func, ast.Attribute) and c.func.attr in getters:
+                        on_config = 'config' in ast.unparse(c.func.value) or c.func.attr == '_get_config_value_raw'
+                        pos = 2 if on_config else 1
+                        cands = [kw.value for kw in c.keywords if kw.arg == 'default_value']
+                        if len(c.args) > pos:
+                            cands.append(c.args[pos])
+                        for d in cands:
+                            if not fresh_ok(d, params):
+                                hits.append('%s:%d %s(..., default %s) hands out a shared object' % (rel, c.lineno, c.func.attr, ast.unparse(d)))
+    if hits:
+        raise Unsupported('shared mutable defaults reachable from option maps: ' + '; '.join(hits[:4]))
+
+
 def gen_c13() -> typing.Tuple[bool, str]:
     try:
         ut = gen.parse_repo('src/nunavut/_utilities.py')
@@ -671,8 +803,10 @@ def gen_c13() -> typing.Tuple[bool, str]:
                      % ';\n   '.join('(%s, [%s])' % (coq_str(k), '; '.join(coq_str(x) for x in v)) for k, v in docs.items()))
         parts.append(translate_cpp_validate())
         parts.append(translate_create())
+        check_pins()
+        scan_mutable_defaults()
         parts.append(translate_cli(wk))
-    except (Unsupported, SyntaxError, OSError, KeyError, TypeError) as ex:
+    except (Unsupported, SyntaxError, OSError, KeyError, TypeError, ValueError) as ex:
         gen.write_if_changed(OUT, HEAD + '(* translator failed closed: %s *)\n' % str(ex).replace('*)', '* )'))
         return False, 'C13 translator failed closed: %s' % ex
     gen.write_if_changed(OUT, HEAD + '\n\n'.join(parts) + '\n')
@@ -680,3 +814,13 @@ def gen_c13() -> typing.Tuple[bool, str]:
 
 
 GENERATORS = {'c13': gen_c13}
+
+
+if __name__ == '__main__':   # development time: python -m tools.translators.gen_c13 --repin  (re-records the pinned shapes)
+    import json
+    import sys
+    if sys.argv[1:] == ['--repin']:
+        with open(PIN_FILE, 'w', encoding='utf-8') as _f:
+            json.dump(current_shapes(), _f, indent=1, sort_keys=True)
+            _f.write('\n')
+        print('pinned %d functions' % len(PINNED))
